@@ -34,6 +34,10 @@ def run_one(sid, tier, seeds):
     meta = json.load(open(os.path.join(sdir, "meta.json")))
     prop = meta["property"]
     out = {"id": sid, "property": prop}
+    if meta.get("superseded"):
+        out["status"] = "SUPERSEDED"
+        out["detail"] = meta["superseded"][:150]
+        return out
     scratch = tempfile.mkdtemp(prefix="ccseed-")
     home = tempfile.mkdtemp(prefix="ccseedhome-")
     try:
@@ -97,7 +101,7 @@ def main():
             for r in results:
                 first = (r.get("runs") or [{}])[0].get("first", r.get("detail", ""))
                 fp.write("| %s | %s | %s | %s |\n" % (r["id"], r["property"], r["status"], first.replace("|", "\\|")[:200]))
-    return 0 if all(r["status"] == "CAUGHT" for r in results) else 1
+    return 0 if all(r["status"] in ("CAUGHT", "SUPERSEDED") for r in results) else 1
 
 
 if __name__ == "__main__":
